@@ -3,7 +3,6 @@ package reference
 import (
 	"errors"
 	"fmt"
-	"path"
 
 	"github.com/google/fhir/go/jsonformat"
 	dtpb "github.com/google/fhir/go/proto/google/fhir/proto/r4/core/datatypes_go_proto"
@@ -75,7 +74,12 @@ func Weak(resourceType resource.Type, reference string) *dtpb.Reference {
 // Returns an error if resourceId is invalid or resourceType is outside
 // of the known R4 types (which should be impossible).
 func Typed(resourceType resource.Type, resourceId string) (*dtpb.Reference, error) {
-	return typedFromURIString(resourceType, path.Join(resourceType.String(), resourceId))
+	// Not path.Join: it cleans the path, and "." and ".." are valid FHIR ids.
+	uri := resourceType.String()
+	if resourceId != "" {
+		uri += "/" + resourceId
+	}
+	return typedFromURIString(resourceType, uri)
 }
 
 func typedFromURIString(resourceType resource.Type, uri string) (*dtpb.Reference, error) {
